@@ -362,16 +362,45 @@ def run(tier: str, seed: int, rep: Report, model: Model) -> dict:
         if rep.many_violations():
             break
     run_shapes(tier, rng_for("C18", seed, "shapes"), rep, model)
-    # arithmetic on constant / anonymous axes is refused
+    # arithmetic on constant / anonymous axes is refused: every operator and constructor x every operand kind on either side,
+    # against the model's operand dispatch (mk_bin / mk_isqrt / mk_fun2; theorem C18_constant_axes_refused)
     import dltype
-    for src in ("dltype.ConstantAxis('rgb', 3) + 1", "1 + dltype.ConstantAxis('rgb', 3)", "dltype.AnonymousAxis('b') * 2", "2 * dltype.AnonymousAxis('b')",
-                "dltype.ConstantAxis('rgb', 3) ** dltype.VariableAxis('a')", "dltype.VariableAxis('a') - dltype.AnonymousAxis(...)"):
-        try:
-            eval(src, {"dltype": dltype})  # noqa: S307
-            rep.violation({"what": "arithmetic on a constant / anonymous axis was not refused", "python": src})
-        except TypeError:
-            rep.count("const_arith_TypeError")
-        except BaseException as e:  # noqa: BLE001
-            rep.violation({"what": f"arithmetic on a constant / anonymous axis raised {type(e).__name__}, not TypeError", "python": src})
+
+    OPND = {
+        "int": ("3", "(int 11)"), "var": ("dltype.VariableAxis('a')", f"(sym (var {sx_str('a')}))"), "lit": ("dltype.LiteralAxis(2)", "(sym (lit 10))"),
+        "computed": ("(dltype.VariableAxis('a') + 1)", f"(sym (bin + (var {sx_str('a')}) (lit 1)))"),
+        "group": ("dltype.Group(dltype.VariableAxis('a') - 1)", f"(sym (group (bin - (var {sx_str('a')}) (lit 1))))"),
+        "const": ("dltype.ConstantAxis('rgb', 3)", f"(const {sx_str('rgb')} 11)"), "anon": ("dltype.AnonymousAxis(...)", "anon"),
+        "star": ("dltype.AnonymousAxis('b')", f"(star {sx_str('b')})"),
+    }
+    combos = []
+    for pyop, mop in OPS.items():
+        for ka, kb in ((x, y) for x in OPND for y in OPND):
+            if ka == "int" and kb == "int":
+                continue
+            combos.append((f"{OPND[ka][0]} {pyop} {OPND[kb][0]}", f"(mk {mop} {OPND[ka][1]} {OPND[kb][1]})", ka in ("const", "anon", "star") or kb in ("const", "anon", "star")))
+    for ctor, mop in (("Min", "min"), ("Max", "max")):
+        for ka, kb in ((x, y) for x in OPND for y in OPND):
+            combos.append((f"dltype.{ctor}({OPND[ka][0]}, {OPND[kb][0]})", f"(mk {mop} {OPND[ka][1]} {OPND[kb][1]})", ka in ("const", "anon", "star") or kb in ("const", "anon", "star")))
+    for ka in OPND:
+        combos.append((f"dltype.ISqrt({OPND[ka][0]})", f"(mk isqrt {OPND[ka][1]})", ka in ("const", "anon", "star")))
+    rep.streams["operand_kinds"] = len(combos)
+    manswers = model.ask_many([m for _, m, _ in combos])
+    for (src, _, bad), ans in zip(combos, manswers):
         rep.case(src, None)
+        try:
+            obj = eval(src, {"dltype": dltype})  # noqa: S307
+            got = "OK " + str(obj)
+        except TypeError:
+            got = "TypeError"
+        except BaseException as e:  # noqa: BLE001
+            got = "OTHER " + type(e).__name__
+        rep.count("operand_kinds:" + got.split()[0])
+        mtxt = ("OK " + unhex(ans.split()[1])) if ans.startswith("OK ") else ("TypeError" if ans == "BUILD_ERR TypeError" else ans)
+        if bad and got != "TypeError":
+            rep.violation({"what": "arithmetic on a constant / anonymous axis was not refused with TypeError", "python": src, "got": got})
+        elif not bad and not got.startswith("OK "):
+            rep.violation({"what": "an operation between operable operands did not build an axis", "python": src, "got": got})
+        elif got != mtxt:
+            rep.disagreement({"what": "model of the operand dispatch / printer and implementation differ", "python": src, "got": got, "model": mtxt})
     return {}
